@@ -57,6 +57,19 @@ def _known_classes(prop):
     return [f for f in k.get("findings", []) if f.get("property") == prop and f.get("bounded_class")]
 
 
+NONTRIVIAL_RULES = {
+    "join": "every (base, reference) pair of the stated grammar is enumerated once per back end; a pair is non-trivial when "
+            "the result is neither the base nor the reference (a merge happened); counted on one back end",
+    "path_algebra": "every base URL of the stated grammar once per back end (each is combined with every listed text); "
+                    "non-trivial when the base has at least two raw parts",
+    "decode": "every string of the stated alphabets/lengths and every listed escape run once per back end; non-trivial "
+              "when reference decoding changes the string (it contains a decodable escape)",
+    "human_repr": "every (component, text, host) combination once per back end; non-trivial when human_repr() differs from str()",
+    "fixed_point": "every URL string of the stated grammar once per back end (plus modifier results for every 7th); "
+                   "non-trivial when str(URL(s)) != s (normalisation changed the text)",
+}
+
+
 def stand_in(prop, name, title, function, bound_text):
     """one bounded obligation (run by contracts/bounded_worker.py:CHECKS[name])"""
     def run(tier, seed):
@@ -64,6 +77,8 @@ def stand_in(prop, name, title, function, bound_text):
         res = _run_workers(name, tier)
         errs = [r for r in res if "error" in r]
         cases = sum(r.get("cases", 0) for r in res)
+        nontrivial = sum(r.get("nontrivial", 0) for r in res if r.get("backend") == "c")
+        samples = [x for r in res for x in r.get("samples", [])][:4]
         fails = [dict(f, backend=r["backend"]) for r in res for f in r.get("failures", [])]
         known = {f["bounded_class"] for f in _known_classes(prop)}
         new = [f for f in fails if f.get("class") not in known]
@@ -74,7 +89,9 @@ def stand_in(prop, name, title, function, bound_text):
         rec = {"name": f"bounded:{title}", "kind": "bounded", "backend": "enumeration", "bounded": True,
                "bound": bound_text + f" ({cases} cases over both quoting back ends, tier {tier})",
                "where": function, "function": function, "time_s": round(time.time() - t, 2), "ground": cases,
-               "info": {"known_finding_hits": by_known, "failures": new[:5]}}
+               "info": {"known_finding_hits": by_known, "failures": new[:5]},
+               "evaluations": cases, "distinct_nontrivial": nontrivial, "samples": samples,
+               "rule": NONTRIVIAL_RULES.get(name, "")}
         if errs:
             rec["status"] = "unknown"
             rec["info"]["worker_error"] = errs[0]["error"]
@@ -100,7 +117,7 @@ stand_in("C14", "join", "base.join(ref) == RFC 3986 5.2.2 (non-strict) on the en
          "over {a, b.c, '.', '..', '', %2e}, query/fragment in {absent, present}")
 stand_in("C13", "path_algebra", "raw_parts / name / suffix / '/' / joinpath / with_name / with_suffix / parent identities",
          "yarl._url:URL._make_child",
-         "bases over {absolute, rooted, rootless, empty} x paths of <= 3 segments over {a, b.c, '', %2F, e-acute} x "
+         "bases over {absolute, rooted, rootless, empty} x paths of <= 3 (quick) / 4 (thorough) segments over {a, b.c, '', %2F, e-acute} x "
          "segment texts over the same kinds plus dot segments and multi-segment texts")
 stand_in("C06", "decode", "decoded accessors == reference UTF-8 percent-decoding; supplied decoded values read back",
          "yarl._quoting_py:_Unquoter.__call__",
